@@ -442,10 +442,14 @@ func scriptsFromRanges(ranges [][2]rune) ScriptSet {
 			// 'item' and 'ra' have an intersection : add the script
 			out.insert(item.Script)
 
+			if item.End > end {
+				// the item extends past the range: the next range may start in it
+				break
+			}
 			indexS++
 		}
 
-		if indexS >= LR {
+		if indexS >= LR && end > language.ScriptRanges[LR-1].End {
 			// the incomming ranges are higher than known scripts :
 			// add Unknown and break early
 			out.insert(language.Unknown)
